@@ -1,5 +1,10 @@
-"""Run every translator; write Generated/*.lean only when the text changed (so lake does not rebuild for nothing)."""
+"""Run every translator.  Generated/*.lean are rewritten only when the text changed (so lake does not rebuild for nothing).
+
+A translator that cannot extract something from the current source does NOT write a partial or placeholder model: the file it is
+responsible for keeps its present content (the committed / last accepted model of that part of the code) and the error is returned.
+The theorems are then about that kept model and the tie to the source is the correspondence check of the run (see run.py)."""
 import os
+import re
 from ..lib.core import LEAN
 
 GEN = os.path.join(LEAN, 'OdakModel', 'Generated')
@@ -19,7 +24,31 @@ def write_if_changed(name, text):
     return False
 
 
+def snapshot():
+    out = {}
+    if os.path.isdir(GEN):
+        for n in sorted(os.listdir(GEN)):
+            if n.endswith('.lean'):
+                with open(os.path.join(GEN, n)) as f:
+                    out[n] = f.read()
+    return out
+
+
+def restore(snap):
+    """put back a snapshot; returns the names whose content changed"""
+    changed = []
+    for n, t in snap.items():
+        if write_if_changed(n, t):
+            changed.append(n)
+    for n in os.listdir(GEN):
+        if n.endswith('.lean') and n not in snap:
+            os.remove(os.path.join(GEN, n))
+            changed.append(n)
+    return changed
+
+
 def run():
+    """returns the list of translator errors ('<File>.lean: <what>'); files with errors are left as they are"""
     errors = []
     from . import index_exprs
     jobs = [('IndexExprs.lean', index_exprs.generate)]
@@ -36,6 +65,8 @@ def run():
             errors.append('%s: translator crashed: %r' % (name, e))
             continue
         errors += ['%s: %s' % (name, e) for e in errs]
+        if errs and not getattr(gen, 'partial_ok', False):
+            continue        # keep the present file
         files = text if isinstance(text, dict) else {name: text}
         for fname, ftext in files.items():
             lines = ftext.split('\n')
